@@ -26,6 +26,10 @@ CLAIMS["C16"] = ("Coq theorems C16_*: (i) an interleaving semantics of N gorouti
 CLAIMS["C15"] = ("Coq theorems C15_*: structural facts extracted from the current source by gosync (no package-level variable assigned outside init, the only shared objects with mutating methods are qr.ec and datamatrix.ec, no slice parameter retained or written); the library as a state machine over the two shared generator caches: after ANY history of encode calls every call gets the Reed-Solomon results a fresh process computes (induction over arbitrary op histories, cache invariant); heap model of the only []byte entry point (aztec): for every history of encodes, caller writes and observations each barcode behaves as an immutable snapshot and encode leaves the heap unchanged, with a witness that a slice-retaining implementation (the repaired defect) violates it; Go map searches by value are independent of iteration order when values are unique. PARTIAL: equality with a freshly started process and determinism of the compiled program are observed by the differential run (one long history over all 11 encoders + Scale vs every call alone in a fresh process, every job issued twice; aliasing probes overwriting every input byte), not proved.", "DESIGN.md §5 C15")
 CLAIMS["C06"] = ("Coq theorems C06_*: source tables = GS1 tables (R = complement of L, G = reverse of R, parity rows); for EVERY byte string the EAN model accepts exactly 7/12 digits or 8/13 digits with correct GS1 check digit, never panics, and when it accepts: kind, 67/95 modules, guards, Content = full number, CheckSum = last digit, and the reference decoder (L/G/R sets + first-digit parity) applied to the modules returns exactly the full number; everything else is rejected. Tied to the code by generated tables, differential sweeps (thorough: all 10^7 seven-digit strings, all 10^8 eight-digit strings on the accept projection, 2M 12-digit strings), extracted decoder oracle on the implementation's pixels, kernel vm_compute sample.", "DESIGN.md §5 C06")
 
+CLAIMS["C02"] = ("Coq theorem C02_roundtrip (closed, no axioms): for EVERY byte string the DataMatrix model accepts, the ISO 16022 reference reader (size from dimensions, finder/clock per region, Annex F placement transliterated from the standard, fixed pattern, de-interleave, RS syndromes over GF(256)/301 at alpha^1..alpha^e, 253-state pad check, ASCII decode) validates the pixels and returns exactly the content. Layers: the 24 generated size rows = ISO table; model placement = Annex F map for all 24 sizes with every cell written once (corner cases 1/2 and the fixed pattern fire exactly where ISO says); ASCII encodation round trip by induction for all byte strings; padding; interleaved RS blocks valid (via rs_encode_valid); plus never-panic, Err iff encodation > 1558, smallest size, ISO ECC count. Tied to the code by generated tables, exhaustive placement probes of all 24 sizes, boundary contents for every size, and the extracted reader run on the implementation's pixels.", "DESIGN.md §5 C02")
+CLAIMS["C07"] = ("Coq theorems C07_*: generated Code 39 / Code 93 tables = literal standard tables (patterns distinct, values unique, search by value independent of map order); for EVERY text and option mix the models never panic, accept exactly the basic alphabets (basic mode) or ASCII 0..127 (full-ASCII), and the reference decoders (pattern -> value, check characters mod 43 / C,K mod 47 with weights 20/15 present exactly when requested, shift-pair resolution) applied to the model's modules return exactly the text; Content and Code 39 CheckSum as specified. Tied to the code by generated tables, exhaustive length<=2 inputs, random longer ones incl. invalid UTF-8, and the extracted decoders run on the implementation's pixels.", "DESIGN.md §5 C07")
+CLAIMS["C08"] = ("Coq theorems C08_*: generated Codabar / 2-of-5 tables = standard tables; the Codabar regexp+ReplaceAllString acceptance is modelled explicitly and shown to accept exactly start[A-D] body* stop[A-D]; both 2-of-5 modes accept exactly non-empty digit strings (even length when interleaved) for ALL byte strings incl. multi-byte input (after repair 63bda0c); run-length reference decoders applied to the model's modules return exactly the text; AddCheckSum appends the digit completing the 3-1 weighted sum to a multiple of ten, errors on empty/non-digit. Tied to the code by generated tables, exhaustive sweeps (thorough: all Codabar strings of length <= 6, all digit strings <= 7 for both variants and the helper), extracted decoders as oracle on the implementation's pixels.", "DESIGN.md §5 C08")
+
 ALL = ["C%02d" % i for i in range(1, 19)]
 
 
